@@ -841,6 +841,17 @@ def _on_line(code, line):
     return None
 
 
+def _on_instruction(code, offset):
+    s = SCHED
+    if s is None or not s.line_points or s.ending:
+        return None
+    t = s.current
+    if t is None or t.ident != _thread.get_ident():
+        return None
+    s.point("instr")
+    return None
+
+
 def _on_jump(code, src, dst):
     if dst >= src:
         return None
@@ -896,6 +907,7 @@ def enable_monitoring():
         mon.use_tool_id(TOOL_ID, "verif-vrt")
     mon.register_callback(TOOL_ID, mon.events.LINE, _on_line)
     mon.register_callback(TOOL_ID, mon.events.JUMP, _on_jump)
+    mon.register_callback(TOOL_ID, mon.events.INSTRUCTION, _on_instruction)
     _monitoring_on = True
 
 
@@ -913,12 +925,17 @@ def _code_objects(fn):
     return out
 
 
-def trace_functions(fns, lines=True, jumps=True):
-    """Make every source line (and backward jump) of the given functions a scheduling point."""
+def trace_functions(fns, lines=True, jumps=True, instructions=False):
+    """Make every source line (and backward jump) of the given functions a scheduling point.
+
+    instructions=True: every bytecode instruction instead of every line (for a small shared structure whose
+    single lines are themselves read-modify-write sequences)."""
     enable_monitoring()
     mon = sys.monitoring
     ev = 0
-    if lines:
+    if instructions:
+        ev |= mon.events.INSTRUCTION
+    elif lines:
         ev |= mon.events.LINE
     if jumps:
         ev |= mon.events.JUMP
@@ -926,6 +943,8 @@ def trace_functions(fns, lines=True, jumps=True):
     for fn in fns:
         for code in _code_objects(fn):
             cur = mon.get_local_events(TOOL_ID, code)
+            if instructions:
+                cur &= ~mon.events.LINE
             mon.set_local_events(TOOL_ID, code, cur | ev)
             _traced_codes.add(code)
             n += 1
